@@ -167,7 +167,7 @@ const ruleText = "engine groups: scripted probe histories (success with a fake-c
 	"default and explicit timeout/interval/concurrency; selection observed before the first round, during every round (at every probe start and end) and after every round; " +
 	"a groups case is non-trivial if the selection changed at least once or at least one round had a tie for the best score between different clients; " +
 	"engine rr: sequential and concurrent selections on round-robin groups of 1..5 (non-trivial if n>=2); engine random: member-only (non-trivial if n>=2); " +
-	"engine udprt (real time, UDP only): groups of 2..4 with clients that answer at once / fail at once / stay silent until the probe's deadline (150-250 ms), 2..3 rounds; the choice after each round is compared with the set the statement allows (real latencies of answering clients are noise); non-trivial if a silent probe occurred; " +
+	"engine udprt (real time, UDP only): groups of 2..4 with clients that answer at once / fail at once / stay silent until the probe's deadline (1-1.2 s), 2 rounds; no wall-clock assertion; the choice after each round is compared with the set the statement allows (real latencies of answering clients are noise); non-trivial if a silent probe occurred; " +
 	"distinct by full case content"
 
 func engine(t *testing.T, o *common.Options) int {
